@@ -120,7 +120,13 @@ func (e *Env) ident(name string) (Val, bool) {
 	if v, ok := e.vars[name]; ok {
 		return v, true
 	}
-	if !e.inOld && e.resolve != nil {
+	if e.inOld && e.a != nil {
+		// inside old(): parameters denote their entry values; other locals keep their current value
+		if v, ok := e.a.params[name]; ok {
+			return v, true
+		}
+	}
+	if e.resolve != nil {
 		if v, ok := e.resolve(name); ok {
 			return v, true
 		}
